@@ -6,6 +6,7 @@
 #include "QXmppTask.h"
 #include <QCoreApplication>
 #include <QObject>
+#include <functional>
 #include <memory>
 #include <set>
 #include <sstream>
@@ -15,15 +16,21 @@ using namespace vh;
 static long liveValues = 0;    // tracked copyable values alive
 static long liveClosures = 0;  // continuation closures alive
 
+struct KSrc { int v; };   // conversion source for the converting finish(U&&) overload whose conversion has a side effect
 struct Val {
     int v = -1; bool moved = false;
     explicit Val(int x) : v(x) { liveValues++; }
+    explicit Val(KSrc s);
     Val(const Val &o) : v(o.v), moved(o.moved) { liveValues++; }
     Val(Val &&o) noexcept : v(o.v), moved(o.moved) { o.moved = true; liveValues++; }
     Val &operator=(Val &&o) noexcept { v = o.v; moved = o.moved; o.moved = true; return *this; }
     virtual ~Val() { liveValues--; }
 };
+// conversion sources for the converting finish(U&&) overload whose conversion has a side effect (destroys a context)
+static std::function<void()> onConvert;
 struct DVal : Val { explicit DVal(int x) : Val(x) {} };   // for the converting finish(U&&) overload
+struct KPtr { int v; operator std::unique_ptr<Val>() && { if (onConvert) onConvert(); return std::make_unique<Val>(v); } };
+inline Val::Val(KSrc s) : v(s.v) { liveValues++; if (onConvert) onConvert(); }
 struct Token { Token() { liveClosures++; } ~Token() { liveClosures--; } };
 
 struct Inner { char kind; int arg; };  // 't' thenI ctx | 'd' destroyCtx c | 'x' drop every handle
@@ -109,6 +116,13 @@ template<typename T, bool Conv = false> struct Env {
         }
     }
 
+    // the op as this environment executes it: without a converting finish there is no conversion and nothing is destroyed
+    static std::string effectiveOp(const std::string &op) {
+        if (op.rfind("finishk ", 0) == 0) {
+            if constexpr (!Conv || std::is_void_v<T>) { std::istringstream is(op); std::string w; int c, v; is >> w >> c >> v; return "finish " + std::to_string(v); }
+        }
+        return op;
+    }
     std::string apply(const std::string &op) {
         evs.clear();
         const size_t refsBefore = refs();
@@ -138,6 +152,36 @@ template<typename T, bool Conv = false> struct Env {
                     if (ranCount[pendingK] != 1) oracleFail("C13:continuation-not-run", history); else oraclePass()++;
                 }
             }
+        } else if (w == "finishk") {
+            // converting finish whose conversion destroys context c (only reached in Conv environments, see effectiveOp)
+            int c, v; is >> c >> v;
+            if (refs() > 0 && !finished) {
+                finished = true; finishedWith = v;
+                onConvert = [this, c]() { destroy(c); };
+                if constexpr (std::is_same_v<T, Val>) promises.front()->finish(KSrc{v});
+                else if constexpr (!std::is_void_v<T>) promises.front()->finish(KPtr{v});
+                onConvert = nullptr;
+                // the conversion may have destroyed the pending continuation's context: then it must NOT have run (checked by oracleRan)
+                if (pendingK >= 0 && pendingCtx != 0 && !destroyed.count(pendingCtx)) {
+                    if (ranCount[pendingK] != 1) oracleFail("C13:continuation-not-run", history); else oraclePass()++;
+                }
+            }
+        } else if (w == "take") {
+            std::string took = "took -";
+            if constexpr (!std::is_void_v<T>) {
+                if (refs() > 0 && finished) {
+                    auto t = aTask();
+                    if (t.hasResult()) {
+                        auto val = t.takeResult();
+                        if constexpr (std::is_same_v<T, Val>) took = "took " + (val.moved ? std::string("moved") : std::to_string(val.v));
+                        else took = "took " + (val ? std::to_string(val->v) : std::string("moved"));
+                        if (took != "took " + std::to_string(finishedWith)) oracleFail("C13:wrong-value", history); else oraclePass()++;
+                        // released: the value was handed out, nothing may stay stored
+                        if (t.hasResult()) oracleFail("C13:value-retained-after-takeResult", history); else oraclePass()++;
+                    }
+                }
+            }
+            evs.push_back(took);
         } else if (w == "destroy") {
             int c; is >> c; destroy(c);
         } else if (w == "copy") {
@@ -174,7 +218,7 @@ template<typename T, bool Conv = false> static void runSeq(const char *kind, con
         Env<T, Conv> env;
         env.promises.push_back(std::make_unique<QXmppPromise<T>>());
         corr(std::string("reset ") + kind, "ok");
-        for (auto &op : ops) corr(op, env.apply(op));
+        for (auto &op : ops) { const std::string eff = Env<T, Conv>::effectiveOp(op); corr(eff, env.apply(eff)); }
     }
     if (liveValues != 0 || liveClosures != 0) { oracleFail("C13:leak-after-teardown", "see previous sequence"); liveValues = 0; liveClosures = 0; }
     stat("sequences");
@@ -198,10 +242,12 @@ int main(int argc, char **argv) {
     Args a = parseArgs(argc, argv);
     std::vector<std::string> small = { "then 1 -", "then 2 t1", "then 0 -", "then 1 t2,d1", "then 2 d2", "then 1 x", "then 2 x,t1", "finish 7",
                                        "destroy 1", "destroy 2", "copy", "drop" };
+    // second exhaustive block: conversion side effects inside finish() and takeResult()
+    std::vector<std::string> small2 = { "then 1 -", "then 2 t1", "then 1 d2", "finish 7", "finishk 1 7", "finishk 2 7", "take", "destroy 1", "copy", "drop" };
     std::vector<std::string> bodies = { "-", "t1", "t2", "t0", "d1", "d2", "t1,d1", "d1,t1", "t2,t1", "d2,t2,t1", "x", "x,t1", "t1,x", "d1,x" };
     std::vector<std::string> full;
     for (int c = 0; c < 3; c++) for (auto &b : bodies) full.push_back("then " + std::to_string(c) + " " + b);
-    for (auto s : { "finish 7", "finish 0", "destroy 1", "destroy 2", "copy", "drop" }) full.push_back(s);
+    for (auto s : { "finish 7", "finish 0", "destroy 1", "destroy 2", "copy", "drop", "finishk 1 7", "finishk 2 0", "take" }) full.push_back(s);
     bool thorough = a.tier == "thorough";
     std::vector<std::string> cur;
     // corpus first: minimized past findings
@@ -209,10 +255,15 @@ int main(int argc, char **argv) {
     runAllKinds({ "then 1 x", "finish 7" });            // owner deletes itself inside its continuation (use after free before the fix)
     runAllKinds({ "copy", "finish 7", "then 1 x,t1" });
     runAllKinds({ "then 1 -", "destroy 1", "finish 7", "drop" });
+    runAllKinds({ "then 1 -", "finishk 1 7", "then 1 -" });        // the conversion inside finish() destroys the context
+    runAllKinds({ "finish 7", "take", "then 1 -", "drop" });        // takeResult() then a late then
     runAllKinds({ "then 1 -", "then 2 t2", "finish 3", "then 1 -", "then 1 -" });
     int depth = thorough ? 6 : 4;
     for (int d = 1; d <= depth; d++) enumerate(small, d, cur);
     stat("exhaustive_depth", depth); stat("alphabet", (long long)small.size());
+    int depth2 = thorough ? 5 : 4;
+    for (int d = 1; d <= depth2; d++) enumerate(small2, d, cur);
+    stat("exhaustive_depth_conversion_take", depth2); stat("alphabet_conversion_take", (long long)small2.size());
     Rng rng(a.seed);
     int nrand = thorough ? 40000 : 3000;
     for (int i = 0; i < nrand; i++) {
